@@ -72,6 +72,10 @@ CLAIMED['C17'] = dict(design='5 (C17), 2', note='trusted: MIRSE MIR semantics + 
 CLAIMED['C20'] = dict(design='5 (C20), 2', note='trusted: MIRSE MIR semantics + std models; environment models: in-memory files, thread::spawn + sync_channel '
     'sequentialised (threads run to completion when the reducer blocks, message order arbitrary), Mutex sequential, progress bar stubbed, word-part '
     'and punctuation regexes and NFKC modelled on ASCII; corpora of symbolic words over {a, b}; max_size=None defect repaired by a fix commit')
+CLAIMED['C19'] = dict(design='5 (C19), 2', note='trusted: MIRSE MIR semantics + std models; environment as in C20 (in-memory files, counting threads '
+    'sequentialised with arbitrary message order, progress bar / panic hook stubbed, merge table captured at SerializeMsgPack::save); hash iteration in '
+    'insertion order except that max_by_key over the statistics table may return any of the tied maximal pairs; oracle = independent recount of '
+    'adjacent-pair frequencies after every merge; exhausted-corpus defect repaired by fix commit a0cb480')
 NOT_YET = 'check not built yet in this session (work in progress, see DESIGN.md section 6 for the order)'
 NA = {}
 
